@@ -119,8 +119,13 @@ def solve_game_via_run_games(name, game):
         a, b = rr[name], rr[name + "_no_prune"]
         if a["msg"] == "Game solved" and b["msg"] == "Game solved":
             return "solved", {"sweeps": max(a["n_iterations_rew"], b["n_iterations_rew"], a["n_iterations_reach"])}
-        if a["msg"].startswith("Error while solving the game: The game has no solution") and b["msg"] == "Game not solved":
-            return "nosol", {}
+        if a["msg"] != "Game solved" and a["rewards"] is None and b["rewards"] is None and b["msg"] != "Game solved":
+            # reported as having no solution (whatever the wording of the message)
+            from .. import oracle as _o
+            og = _o.Game(game["players"], [[(0, t) for _, t in tr] for tr in game["transition_list"]], game["final_states"], [0] * n)
+            # C11 only asks that the game is "solved or reported as having no solution"; whether that report is right is C06's
+            # business (open finding sub-tolerance-positive-value).  Recorded as an observation.
+            return "nosol", {"positive_value": 0 in _o.positive_set(og)}
         return "violated", {"problem": "unexpected batch entry", "msgs": [a["msg"], b["msg"]]}
     d = (last.diag or {}) if last else {}
     if d.get("phase") == "total_rewards" and not d.get("main_quiet"):
@@ -252,6 +257,8 @@ def decide(idx, seed, tier, cls, given=None):
                             continue
                         kind_, d = solve_game_via_run_games(name, g)
                         res["stats"]["%s_%s" % (name, kind_)] = res["stats"].get("%s_%s" % (name, kind_), 0) + 1
+                        if kind_ == "nosol" and d.get("positive_value"):
+                            res["stats"]["nosol_reported_for_positive_value_observation"] = res["stats"].get("nosol_reported_for_positive_value_observation", 0) + 1
                         if kind_ == "solved":
                             res["stats"]["max_solved_states"] = max(res["stats"].get("max_solved_states", 0), n)
                         elif kind_ == "known":
